@@ -758,9 +758,36 @@ def norm_text_named(t):
     return s[:160]
 
 
+NORM_NEXT = True
+
+
+def norm_next(s):
+    """`<SomeIter<..> as Iterator>::next(` -> `Iterator::next(`: the concrete iterator type is not part of an obligation's
+    identity (a loop and its spliced combinator form name it differently)"""
+    pat = " as Iterator>::next("
+    while True:
+        i = s.find(pat)
+        if i < 0:
+            return s
+        depth, j = 0, i
+        while j >= 0:
+            j -= 1
+            if j >= 0 and s[j] == ">" and (j == 0 or s[j - 1] != "-"):
+                depth += 1
+            elif j >= 0 and s[j] == "<":
+                if depth == 0:
+                    break
+                depth -= 1
+        if j < 0:
+            return s
+        s = s[:j] + "Iterator::next(" + s[i + len(pat):]
+
+
 def norm_text(t):
     s = fmt(anon(t))
     s = re.sub(r"φ_\d+", "φ", s)
+    if NORM_NEXT:
+        s = norm_next(s)
     return s[:160]
 
 
